@@ -17,6 +17,10 @@ import (
 // ---- C17: verify-index accepts a file iff it matches the index ----
 
 func runC17(c *fw.Case) {
+	if desyncBin() != "" && c.Chance(1, 12, "c17.proc") {
+		runC17Proc(c)
+		return
+	}
 	sz := c09Sizes[c.Draw(len(c09Sizes), "c17.sizes")]
 	big := c.Chance(1, 3, "c17.big")
 	limit := 30 * int(sz.max)
